@@ -10,6 +10,7 @@ import (
 	"crypto/x509"
 	"crypto/x509/pkix"
 	"encoding/asn1"
+	"encoding/json"
 	"encoding/pem"
 	"errors"
 	"fmt"
@@ -328,7 +329,12 @@ func genC19(r *Runner) {
 	// authentic signing time
 	zero := time.Time{}
 	for _, scheme := range []signature.SigningScheme{signature.SigningSchemeX509, signature.SigningSchemeX509SigningAuthority, "", "notary.x509.signingauthority", "other"} {
-		for _, t := range []time.Time{zero, time.Unix(0, 0), time.Unix(1700000000, 5), baseTime(), baseTime().In(time.FixedZone("", 5*3600+1800))} {
+		// (the absent signing time is an instant — year 1, 00:00:00 UTC — however the value carrying it was obtained: in a location, from
+		// Unix seconds, parsed from text)
+		zeroParsed, _ := time.Parse(time.RFC3339, "0001-01-01T01:00:00+01:00")
+		for ti, t := range []time.Time{zero, time.Unix(0, 0), time.Unix(1700000000, 5), baseTime(), baseTime().In(time.FixedZone("", 5*3600+1800)),
+			zero.Local(), zero.UTC(), zero.In(time.FixedZone("x", 3600)), zero.In(time.FixedZone("", 0)), time.Unix(-62135596800, 0), time.Unix(-62135596800, 0).UTC(), zeroParsed,
+			zero.Add(1), time.Unix(-62135596800, 1), zero.Add(-time.Nanosecond), zero.Add(time.Second).In(time.FixedZone("y", -3600))} {
 			// everything else a SignerInfo carries: the answer depends on the scheme and the signing time alone
 			for oi, other := range []func(si *signature.SignerInfo){
 				func(si *signature.SignerInfo) {},
@@ -352,9 +358,11 @@ func genC19(r *Runner) {
 				got, err := si.AuthenticSigningTime()
 				impl := map[string]any{"time": nil}
 				if err == nil {
-					impl["time"] = got.Unix()*1000000000 + int64(got.Nanosecond())
+					// (exact: the year-1 instants do not fit 64-bit nanoseconds)
+					ns := new(big.Int).Mul(big.NewInt(got.Unix()), big.NewInt(1000000000))
+					impl["time"] = json.Number(ns.Add(ns, big.NewInt(int64(got.Nanosecond()))).String())
 				}
-				r.Submit(&Case{ID: fmt.Sprintf("authtime-%s-%d-%d", scheme, t.Unix(), oi), K: "authtime",
+				r.Submit(&Case{ID: fmt.Sprintf("authtime-%s-%d-%d-%d", scheme, ti, t.Unix(), oi), K: "authtime",
 					In:   map[string]any{"authority": scheme == signature.SigningSchemeX509SigningAuthority, "st": tsec(t)},
 					Impl: impl, Class: "authentic-signing-time", Replay: map[string]any{"scheme": string(scheme), "signing_time": t.String(), "other_fields_variant": oi}})
 			}
